@@ -72,6 +72,8 @@ type Addr struct {
 	Idx    string // elem index (absolute)
 	Sort   Sort
 	GT     types.Type
+	Slice  string // elem: the slice term and the relative index, when known
+	Rel    string
 }
 
 type Val struct {
